@@ -76,11 +76,23 @@ pub fn scenario(max_ops: usize) -> impl Strategy<Value = Scenario> {
 }
 
 pub fn run_scenario(sc: &Scenario, dir: &Path) -> CaseResult {
-	let mut it = Interp::new(&sc.cfg, dir, Interp::universe_of(sc));
+	run_scenario_bg(sc, dir, false)
+}
+
+/// background = the library's own worker threads (with always_flush) move the data through the
+/// pipeline while the iterator is used; the stage ops of the scenario are skipped then.
+pub fn run_scenario_bg(sc: &Scenario, dir: &Path, background: bool) -> CaseResult {
+	let mut cfg = sc.cfg.clone();
+	cfg.always_flush = background;
+	let mut it = Interp::new(&cfg, dir, Interp::universe_of(sc));
+	it.background = background;
 	it.open()?;
 	let mut out = CaseOut::default();
 	let mut last_dir: Option<bool> = None;
 	for op in &sc.ops {
+		if background && matches!(op, Op::P | Op::F | Op::E | Op::C | Op::R | Op::Drain) {
+			continue
+		}
 		it.step(op)?;
 		match op {
 			Op::Iter(_, IterOp::Next) => {
@@ -104,6 +116,13 @@ pub fn run_scenario(sc: &Scenario, dir: &Path) -> CaseResult {
 		}
 	}
 	it.drop_iters();
+	if background {
+		// continue without worker threads for the final stepping checks
+		it.background = false;
+		it.cfg.always_flush = false;
+		it.step(&Op::Reopen)?;
+		out.label("background-workers");
+	}
 	it.step(&Op::Drain)?;
 	it.check_reads(true)?;
 	it.step(&Op::Reopen)?;
@@ -122,6 +141,9 @@ pub fn run_scenario(sc: &Scenario, dir: &Path) -> CaseResult {
 		out.label(l);
 	}
 	out.nontrivial = it.labels.contains("iter-step-multi-layer") || out.labels.contains("direction-change");
+	if background {
+		out.nontrivial = out.labels.contains("direction-change");
+	}
 	out.count("point_reads", it.reads);
 	Ok(out)
 }
@@ -131,6 +153,10 @@ fn run(ctx: &Ctx) {
 	if !ctx.run_prop("iter", n, scenario(70), run_scenario) {
 		return
 	}
+	let n = scaled(ctx, 2_000, 40_000);
+	if !ctx.run_prop("iter-bg", n, scenario(70), |sc, dir| run_scenario_bg(sc, dir, true)) {
+		return
+	}
 	if ctx.tier == "thorough" {
 		let n = scaled(ctx, 0, 8_000);
 		ctx.run_prop("iter-long", n, scenario(300), run_scenario);
@@ -138,7 +164,14 @@ fn run(ctx: &Ctx) {
 }
 
 fn replay(ctx: &Ctx, path: &Path) -> Result<(), Failure> {
-	let (_sub, sc): (String, Scenario) = load_replay(path).map_err(|e| Failure::new("bad-replay", e))?;
+	let (sub, sc): (String, Scenario) = load_replay(path).map_err(|e| Failure::new("bad-replay", e))?;
+	if sub == "iter-bg" {
+		for _ in 0..20 {
+			let dir = ctx.case_dir();
+			guarded(|| run_scenario_bg(&sc, &dir, true)).map(|_| ())?;
+		}
+		return Ok(())
+	}
 	let dir = ctx.case_dir();
 	guarded(|| run_scenario(&sc, &dir)).map(|_| ())
 }
